@@ -122,6 +122,9 @@ func (h *Header) Unmarshal(b []byte) error {
 	if hdrlen > len(b) {
 		return errBufferTooShort
 	}
+	if hdrlen < HeaderLen {
+		return errHeaderTooShort
+	}
 
 	h.Version = int(b[0] >> 4)
 	h.Len = hdrlen
@@ -162,6 +165,10 @@ func (h *Header) Unmarshal(b []byte) error {
 	if h.TotalLen > len(b) {
 		return fmt.Errorf("buffer too short, expected %d got %d", 20+h.TotalLen, len(b))
 
+	}
+
+	if h.TotalLen < HeaderLen {
+		return fmt.Errorf("total length %d is smaller than the header", h.TotalLen)
 	}
 
 	h.Payload = b[20:h.TotalLen]
